@@ -19,9 +19,15 @@ THEOREMS = {
             "C15.acyclic_no_cycle", "C15.heads_bases", "C15.closure_total",
             "Lemmas.Rev.peel_of_ranked", "Lemmas.Rev.peel_keeps_cycle", "Lemmas.Rev.ranked_of_peel",
             "Lemmas.Rev.detect_ok_of_ranked", "Lemmas.Rev.mem_closureOf_iff"],
-    "C16": [],
+    "C16": ["C16.full_id", "C16.plain_sound", "C16.prefix_unique_partial", "C16.prefix_unique_counterexample",
+            "C16.symbolic_heads", "C16.symbolic_base", "Lemmas.Rev.revisionForIdent_sound"],
 }
-PARTIAL = {}
+PARTIAL = {
+    "C16": {
+        "C16.prefix_unique_partial": "full prefix rule needs every revision id to have >=4 characters (known finding F13: shorter ids are invisible to the partial lookup); C16.prefix_unique_counterexample is the kernel-checked witness",
+        "relative and branch-qualified forms": "id+/-N, +/-N, label@... are compared with the real code and judged by the Lean oracles Spec.Rev.stepsDown / downLineage / refTargets on the implementation's answers; no unbounded theorem about _walk yet",
+    },
+}
 RULE = (
     "histories: every DAG on <=3 (quick) / <=4 (thorough) revisions with <=2 down-revisions and <=1 dependency, each with every "
     "antichain state and every target form; plus random DAGs (2-14 revisions, merge points, several roots, cross-branch dependencies, "
